@@ -92,6 +92,14 @@ CHECKS = {
              'provider (operation invoked over the loop-back SOAP path, queued processing) and TLC judges the provider context-state projection after every call.',
         note='Trusted: mapping of provider-generated uuid handles to abstract names by order of appearance; virtual provider clock.',
         design_ref='6/C10'),
+    'C09': dict(
+        technique='TLA+ spec Invocation.tla (provider sequence rules + consumer OperationsManager with all response/report interleavings) checked by TLC; behaviours executed on the real provider and the real OperationsManager; TLC trace validation (InvocationTrace.tla)',
+        text='Provider: every sequence of 3 requests (known/unknown operation, direct/queued, handler finishes / finishes with modification / fails / raises) runs on '
+             'a real SdcProvider through the real consumer clients (5 operation kinds); TLC judges transaction ids, the response+report state sequence, error information, '
+             'no effect of unknown operations. Consumer: every interleaving of the HTTP response with the reports of 2-3 overlapping transactions (exhaustive from TLC) '
+             'is replayed on the real OperationsManager with real XSD-valid messages; TLC judges that each result completes once with the final state and all report parts.',
+        note='Trusted: scripted handlers; sequential replay is exact because OperationsManager handlers are atomic under its lock.',
+        design_ref='6/C09'),
 }
 
 NOT_YET = 'check not built yet in this round (see DESIGN.md section 10 build order); no claim made'
